@@ -316,7 +316,8 @@ def _matches(finding, prop, harness_name, kind, spec, model, msg):
     where = m.get("where")
     if where:
         try:
-            return bool(eval(where, {"__builtins__": {"any": any, "all": all, "len": len, "min": min, "max": max, "abs": abs, "str": str, "int": int, "sorted": sorted, "set": set}}, {"spec": spec, "model": model or {}, "msg": msg or "", "kind": kind}))  # pylint: disable=eval-used
+            # the names live in the globals of the expression, so that generator expressions inside it see them too
+            return bool(eval(where, {"__builtins__": {"any": any, "all": all, "len": len, "min": min, "max": max, "abs": abs, "str": str, "int": int, "sorted": sorted, "set": set}, "spec": spec, "model": model or {}, "msg": msg or "", "kind": kind}))  # pylint: disable=eval-used
         except Exception:  # pylint: disable=broad-except
             return False
     return True
@@ -428,7 +429,7 @@ def finish(res, max_replays_per_kind=3):
             shown.add(f["id"])
             out_lines.append("KNOWN-FINDING: property=%s %s [%s; e.g. job %s]" % (prop, f.get("what", f["id"]), f["id"], rec["job"]))
     for rec in not_reproduced[:5]:
-        out_lines.append("HARNESS-ERROR: a symbolic counterexample did not reproduce on the real code: job %s kind %s real=%s" % (rec["job"], rec["kind"], json.dumps(rec["replay"])[:300]))
+        out_lines.append("HARNESS-ERROR: a symbolic counterexample did not reproduce on the real code: job %s kind %s (%s) real=%s" % (rec["job"], rec["kind"], str(rec.get("msg", ""))[:240], json.dumps(rec["replay"])[:300]))
     for m in mismatches[:5]:
         out_lines.append("HARNESS-ERROR: sampled path disagrees with the implementation: job %s real=%s" % (m["job"], json.dumps(m["real"])[:300]))
     for d, pb in problems[:5]:
